@@ -500,6 +500,13 @@ def table_strategy(fns):
         s_out = draw(st.one_of(sc, st.sampled_from([1 / 256, 1 / 128])))
         zp_in = draw(st.one_of(st.integers(lo, hi), st.sampled_from([lo, hi, (lo + hi + 1) // 2])))
         zp_out = draw(st.one_of(st.integers(lo, hi), st.sampled_from([lo, hi, (lo + hi + 1) // 2])))
+        if fn in ("sigmoid", "tanh") and draw(st.booleans()):
+            # boundary bias: the function's asymptote (+-1, i.e. 1/s_out output steps) lands next to a rounding tie and is not saturated away; the input range reaches the
+            # region where the function is within 1e-3 of the asymptote (any clamping / early saturation of the real function shows up there first)
+            n_steps = draw(st.integers(2, hi - lo - 1))
+            s_out = 1.0 / (n_steps + 0.5 + draw(st.floats(min_value=-0.12, max_value=0.12)))
+            zp_out = draw(st.integers(lo, hi - n_steps - 1)) if fn == "sigmoid" or draw(st.booleans()) else draw(st.integers(lo + n_steps + 1, hi)) if lo + n_steps + 1 <= hi else zp_out
+            s_in = draw(st.floats(min_value=float(np.float32(0.03)), max_value=0.25, width=32))
         c = dict(kind="table", table=fn, dtype=dtype, s_in=float(np.float32(s_in)), zp_in=zp_in, s_out=float(np.float32(s_out)), zp_out=zp_out)
         if fn == "lrelu":
             c["alpha"] = float(np.float32(draw(st.one_of(st.floats(min_value=-2, max_value=2, width=32), st.sampled_from([0.01, 0.1, 0.2, 0.3, -0.5, 1.5, 0.0])))))
@@ -593,7 +600,7 @@ def parts(ctx):
     ps += [Part("exp%02d" % i, exp_lattice, (i, 4, 400009 if q else 4099)) for i in range(4)]
     groups = [["sigmoid", "tanh"], ["lrelu"], ["hardswish"], ["exp", "sqrt", "gelu", "gelu_tanh"]]
     for gi, g in enumerate(groups):
-        ps += [Part("tables_%s_%d" % (g[0], i), tables, (i, 40 if q else 1500, g)) for i in range(4)]
+        ps += [Part("tables_%s_%d" % (g[0], i), tables, (i, 120 if q else 3000, g)) for i in range(4)]
     ps += [Part("requant%d" % i, requant, (i, 300 if q else 20000)) for i in range(4)]
     return ps
 
